@@ -348,28 +348,27 @@ class MgmComputation(VariableComputation):
                 self.logger.debug(
                     f"Received values from all neighbors : {self._neighbors_values}"
                 )
-            # Compute the current_cost on the first step (initialization) of
-            # the algorithm
-            if self.current_cost is None:
-                reduced_cs = []
-                concerned_vars = set()
-                cost = 0
-                for c in self.utilities:
-                    asgt = filter_assignment_dict(self._neighbors_values, c.dimensions)
-                    reduced_cs.append(c.slice(asgt))
-                    cost = functools.reduce(
-                        operator.add, [f(self.current_value) for f in reduced_cs]
-                    )
-                    # Cost for variable, if any:
-                    concerned_vars.update(c.dimensions)
+            # Compute the current_cost at every cycle: it depends on the
+            # values of the neighbors, which may have changed since the last cycle.
+            reduced_cs = []
+            concerned_vars = set()
+            cost = 0
+            for c in self.utilities:
+                asgt = filter_assignment_dict(self._neighbors_values, c.dimensions)
+                reduced_cs.append(c.slice(asgt))
+                cost = functools.reduce(
+                    operator.add, [f(self.current_value) for f in reduced_cs]
+                )
+                # Cost for variable, if any:
+                concerned_vars.update(c.dimensions)
 
-                for v in concerned_vars:
-                    if v.name == self.name:
-                        cost += v.cost_for_val(self.current_value)
-                    else:
-                        cost += v.cost_for_val(self._neighbors_values[v.name])
+            for v in concerned_vars:
+                if v.name == self.name:
+                    cost += v.cost_for_val(self.current_value)
+                else:
+                    cost += v.cost_for_val(self._neighbors_values[v.name])
 
-                self.value_selection(self.current_value, cost)
+            self.value_selection(self.current_value, cost)
 
             new_values, val_cost = self._compute_best_value()
             self._gain = self.current_cost - val_cost
